@@ -576,7 +576,7 @@ def stream_cmp(rng, tier):
                     yield "cmp %s %s %s %s" % (f, kind, hx(a), hx(b))
     paths = ["", "/", "a", "/a", "a/", "a/.", "a/./", "a/b/..", "a/b/../", "..", "../a", "a/../..",
              "/..", "/a/..", "//", "/./", "./", ".", "a//b", "a/b", "%61", "a/%2E", "a/./b", "/.//a",
-             "//a", "a/../b", "b", "%2e"]
+             "//a", "a/../b", "b", "%2e", "a/%2E%2E/..", "%2e%2e/..", "/%2E%2E/../b", "/b", "a/%2E/.."]
     for a in paths:
         for b in paths:
             yield "cmp u path %s %s" % (hx(a), hx(b))
